@@ -340,6 +340,8 @@ def check(prog, run):
     #         cached per (runtime type, merged selections); a lossy key hands one object's sub-fields to another
     from . import c04
     c04.check_memo_keys(prog, run, "M1")
+    # the response shape of a validated operation is what collect_fields makes of its selection sets (shared with C04.K5)
+    c04.check_seen_scope(prog, run, "K6")
 
     # ---- K1 no lossy skip sets in validation loops
     from .. import loopskip
